@@ -48,6 +48,51 @@ YMD = {"A_2000": "2000-01-01", "B_2001": "2001-01-01", "C_2002.5": "2002-07-02",
 SAME = {k: k.rsplit("_", 1)[0] + "_2009" for k in SEQS}
 ROOTED_SAME = "((((E_2009:1,F_2009:1):1,D_2009:2):3,(C_2009:2,B_2009:2):3):1,A_2009:6);"
 ROOTED_SAME_SUBST = "((((E_2009:0.011,F_2009:0.0095):0.0105,D_2009:0.0188):0.031,(C_2009:0.0215,B_2009:0.0182):0.0298):0.0112,A_2009:0.0592);"
+# CALENDAR dates: six sets of six dates covering every month (first and last day), Feb 28/29, Dec 31, leap, common and
+# century years (1900 is not a leap year, 2000 is); each set is written with the dates in the names in five field orders,
+# as decimal years (computed with datetime), and as a csv of calendar strings
+CAL_SETS = [
+    ["1996-01-01", "1996-01-31", "1996-02-01", "1996-02-15", "1996-02-28", "1996-02-29"],
+    ["1996-03-01", "1996-03-31", "1996-04-01", "1996-04-30", "1996-12-31", "1997-02-28"],
+    ["1997-03-01", "1997-05-01", "1997-05-31", "1997-06-01", "1997-06-30", "1997-12-31"],
+    ["2001-07-01", "2001-07-31", "2001-08-01", "2001-08-31", "2001-09-01", "2001-09-30"],
+    ["2003-10-01", "2003-10-31", "2003-11-01", "2003-11-30", "2003-12-01", "2003-12-31"],
+    ["1900-02-28", "1900-03-01", "1900-12-31", "2000-02-29", "2000-03-01", "2000-12-31"],
+]
+CAL_FORMATS = ["yyyy-MM-dd", "yyyy/MM/dd", "dd/MM/yyyy", "dd-MM-yyyy", "MM/dd/yyyy"]
+CAL_REGEX = r"_(\d+)_(\d+)_(\d+)$"
+CAL_TREE = "((((E:1,F:1):1,D:1):3,(C:2,B:0.5):1.5):1,A:2);"
+
+
+def decimal_year(ymd):
+    """independent oracle (Python's calendar): year + (days since Jan 1) / (days in that year)"""
+    import datetime
+
+    y, m, d = (int(x) for x in ymd.split("-"))
+    day = datetime.date(y, m, d)
+    return y + (day - datetime.date(y, 1, 1)).days / (datetime.date(y + 1, 1, 1) - datetime.date(y, 1, 1)).days
+
+
+def cal_fields(ymd, fmt):
+    import re as _re
+
+    y, m, d = ymd.split("-")
+    part = {"yyyy": y, "MM": m, "dd": d}
+    return [part[f] for f in _re.split(r"[/-]", fmt)]
+
+
+def cal_names(k, fmt):
+    """taxon names of set k: letter + the date fields in the order of fmt (None: decimal year)"""
+    out = {}
+    for letter, ymd in zip("ABCDEF", CAL_SETS[k]):
+        out[letter] = f"{letter}_{decimal_year(ymd)!r}" if fmt is None else letter + "_" + "_".join(cal_fields(ymd, fmt))
+    return out
+
+
+def cal_tag(fmt):
+    return "dec" if fmt is None else fmt.replace("/", "s").replace("-", "d")
+
+
 CSV_SHIFT = 0.25   # the csv deliberately disagrees with the dates in the names
 _DATA = {}
 
@@ -67,6 +112,19 @@ def data_dir() -> Path:
         (d / "rooted_same.nwk").write_text(ROOTED_SAME + "\n")
         (d / "rooted_same_subst.nwk").write_text(ROOTED_SAME_SUBST + "\n")
         (d / "dates_same.csv").write_text("strain,date\n" + "".join(f"{v},2009.0\n" for v in SAME.values()))
+        for k in range(len(CAL_SETS)):
+            for fmt in [None] + CAL_FORMATS:
+                nm = cal_names(k, fmt)
+                seqs = {nm[key[0]]: v for key, v in SEQS.items()}
+                (d / f"aln_cal{k}_{cal_tag(fmt)}.fa").write_text("".join(f">{a}\n{b}\n" for a, b in seqs.items()))
+                t = CAL_TREE
+                for letter, name in nm.items():
+                    t = t.replace(letter + ":", name + ":")
+                (d / f"rooted_cal{k}_{cal_tag(fmt)}.nwk").write_text(t + "\n")
+                if fmt is not None:
+                    sep = "/" if "/" in fmt else "-"
+                    (d / f"dates_cal{k}_{cal_tag(fmt)}.csv").write_text(
+                        "strain,date\n" + "".join(f"{nm[letter]},{sep.join(cal_fields(ymd, fmt))}\n" for letter, ymd in zip("ABCDEF", CAL_SETS[k])))
         ren = {k: k.rsplit("_", 1)[0] + "_" + YMD[k] for k in SEQS}
         (d / "aln_ymd.fa").write_text("".join(f">{ren[k]}\n{v}\n" for k, v in SEQS.items()))
         t = ROOTED
